@@ -263,6 +263,34 @@ func runC15(c *Ctx) {
 	c.min("R15.4", 5)
 	c.min("R15.5", 5)
 
+	// sibling agreement of the text codec: the consumer's first choice is encoding.TextUnmarshaler, so the producer's
+	// first choice is encoding.TextMarshaler (a value that also is an error or a Stringer is still written as its text form)
+	{
+		var tpc *ssa.Function
+		for _, a := range p.Fn("rt.TextProducer").AnonFuncs {
+			if a.Signature.Params().Len() == 2 && a.Signature.Results().Len() == 1 {
+				tpc = a
+			}
+		}
+		var tm *ssa.TypeAssert
+		var others []*ssa.TypeAssert
+		for _, in := range instrs(tpc) {
+			ta, ok := in.(*ssa.TypeAssert)
+			if !ok || ta.X != ssa.Value(tpc.Params[1]) {
+				continue
+			}
+			if typeStr(ta.AssertedType) == "encoding.TextMarshaler" {
+				tm = ta
+			} else {
+				others = append(others, ta)
+			}
+		}
+		c.obF("R15.2", tpc, "text-marshaler-supported", tm != nil, "the text producer writes a TextMarshaler's text form", "")
+		for _, o := range others {
+			c.obI("R15.2", o, "text-marshaler-first", tm != nil && dominates(tm, o), "the text producer asks for encoding.TextMarshaler before any other interface of the value (the text consumer reads into encoding.TextUnmarshaler first, so what is written for such a value is what reading it back expects)", "the value is tested for "+typeStr(o.AssertedType)+" before encoding.TextMarshaler")
+		}
+	}
+
 	// R15.6
 	jc := p.Fn("rt.JSONConsumer").AnonFuncs[0]
 	un := callsIn(jc, "(*encoding/json.Decoder).UseNumber")
